@@ -180,6 +180,10 @@ func (n *zzNode) toAddr(i int) types.Address {
 		return types.ZeroAddress()
 	case -2:
 		return zzStranger()
+	case -3:
+		a := zzStranger()
+		a[19] = 0x02
+		return a
 	}
 	return zzAddr(i)
 }
